@@ -114,9 +114,12 @@ def gen_program(rng, idx):
         add_repeated_names(rng, funcs, new_param)
     # at most one 'special' feature per program (each is decided against a
     # variant of the program without it)
-    special = rng.choices([None, 'fw', 'empty', 'slag'], [65, 23, 4, 8])[0]
+    special = rng.choices([None, 'fw', 'empty', 'slag', 'fb'],
+                          [50, 20, 4, 8, 18])[0]
     if special == 'fw':
         add_failing_wraps(rng, funcs, new_param)
+    elif special == 'fb':
+        add_failing_bodies(rng, funcs, new_param)
     elif special in ('empty', 'slag'):
         if not add_odd_parameter(rng, funcs, special):
             special = None
@@ -125,9 +128,14 @@ def gen_program(rng, idx):
     live = [f for f in funcs.values() if not f.get('fails')]
     ctl_names = [p['name'] for f in live for p in f['params'][f['prepend']:]]
     by_name = {p['name']: p for f in live for p in f['params']}
-    # variants (and the forced spec) only address names declared once
+    # variants (and the forced spec) only address names declared once, and
+    # none declared below a wrap call whose exception is handled
+    import vf.model_controls as MC
+    shaky = MC.failed_subtree(prog) if special == 'fb' else set()
+    shaky_names = {p['name'] for n in shaky for p in funcs[n]['params']}
     uniq = [n for n in ctl_names if ctl_names.count(n) == 1
-            and by_name[n]['default'] != ('tuple', [])]
+            and by_name[n]['default'] != ('tuple', [])
+            and n not in shaky_names]
     if ctl_names and rng.random() < 0.35:
         for nm in rng.sample(ctl_names, rng.randint(1, min(4, len(ctl_names)))):
             prog['specs'][nm] = rng.choice([0.3, 7, 9.5, 0.01, 220.0])
@@ -311,6 +319,158 @@ def add_failing_wraps(rng, funcs, new_param):
         host['wraps'].insert(rng.randint(0, len(host['wraps'])), fname)
 
 
+BODY_FAILURES = [('user', 'UserError'), ('user', 'UserError'),
+                 ('user', 'ZeroDivisionError'), ('user', 'KeyError'),
+                 ('user', 'RuntimeError'), ('user', 'ValueError'),
+                 ('user', 'IndexError'), ('user', 'StopIteration'),
+                 ('wrap-not-a-function', 'TypeError'),
+                 ('wrap-bad-annotation', 'ValueError'),
+                 ('wrap-outside-domain-signature', 'ValueError')]
+
+
+def add_failing_bodies(rng, funcs, new_param):
+    """'recovered failing body': 1-2 helpers with a VALID signature whose
+    body raises after SynthDef.wrap made their parameters controls: after
+    the body used j of the parameters and completed m of its own 0-2 wraps.
+    The failure is an exception of user code or one the library raises for
+    a nested SynthDef.wrap call; it is handled by the function calling wrap
+    or by a function further up (the wrapped functions in between are
+    abandoned), which then wraps a fallback (other names / the same names /
+    the very same function once more, succeeding now) or nothing and carries
+    on with its remaining wraps."""
+    import copy
+    parent = {w: f['name'] for f in funcs.values() for w in f['wraps']}
+    hosts = [f['name'] for f in funcs.values() if 'alias_of' not in f]
+    for _ in range(rng.choice([1, 1, 1, 2])):
+        k = len(funcs)
+        fname = f'g{k}'
+        host = funcs[rng.choice(hosts)]
+        # the chain of enclosing functions up to the top one
+        chain, n = [host['name']], host['name']
+        while n in parent:
+            n = parent[n]
+            chain.append(n)
+        catch_up = 0
+        if len(chain) > 1 and rng.random() < 0.4:
+            catch_up = rng.randint(1, len(chain) - 1)
+        prepend = 1 if rng.random() < 0.25 else 0
+        params = [new_param(True, False) for _ in range(prepend)]
+        nctl = rng.choice([0, 1, 1, 2, 2, 3, 4, 6])
+        params += [new_param(False, False) for _ in range(nctl)]
+        if rng.random() < 0.3:
+            pool = [p['name'] for f in funcs.values()
+                    for p in f['params'][f['prepend']:]]
+            for p in params[prepend:]:
+                if pool and rng.random() < 0.4:
+                    nm = rng.choice(pool)
+                    if nm not in [q['name'] for q in params]:
+                        p['name'] = nm
+        rates = None
+        if rng.random() < 0.5:
+            rates = [rng.choice([None, 0.1, 'ir', 'kr', 0.5, 'tr', 'ar',
+                                 [0.2, 0.3]])
+                     for _ in range(rng.randint(0, nctl + 1))]
+            for j, e in enumerate(rates):
+                if isinstance(e, list) and (
+                        j >= nctl or
+                        params[prepend + j]['default'][0] != 'tuple'):
+                    rates[j] = 0.2
+        f = {'name': fname, 'params': params, 'prepend': prepend,
+             'rates': rates, 'wraps': [],
+             'prepend_values': _prepend_values(rng, host, prepend, k),
+             'fallback': None}
+        funcs[fname] = f
+        parent[fname] = host['name']
+        # own small helpers, wrapped by the failing body
+        for _ in range(rng.choice([0, 0, 1, 1, 2])):
+            c = f'g{len(funcs)}'
+            cp = [new_param(False, False)
+                  for _ in range(rng.choice([1, 1, 2, 3]))]
+            cr = None if rng.random() < 0.6 else [
+                rng.choice([None, 0.2, 'ir', 'ar', 'tr'])
+                for _ in range(rng.randint(0, len(cp)))]
+            funcs[c] = {'name': c, 'params': cp, 'prepend': 0, 'rates': cr,
+                        'wraps': [], 'prepend_values': []}
+            f['wraps'].append(c)
+            parent[c] = fname
+        kind, exc = rng.choice(BODY_FAILURES)
+        f['body_fails'] = {'route': rng.randint(0, nctl),
+                           'wraps': rng.randint(0, len(f['wraps'])),
+                           'catch_up': catch_up, 'kind': kind, 'exc': exc}
+        mode = rng.choices(['none', 'other', 'same', 'retry'],
+                           [25, 30, 25, 20])[0]
+        if mode != 'none':
+            fb = f'g{len(funcs)}'
+            if mode == 'retry':
+                # the same python function wrapped once more (leaf only)
+                if f['wraps']:
+                    mode = 'same'
+                else:
+                    funcs[fb] = {
+                        'name': fb, 'alias_of': fname,
+                        'params': copy.deepcopy(params), 'prepend': prepend,
+                        'rates': rates if rng.random() < 0.6 else None,
+                        'wraps': [],
+                        'prepend_values': _prepend_values(
+                            rng, funcs[chain[catch_up]], prepend, k + 50)}
+            if mode == 'same':
+                fparams = []
+                for p in params[prepend:]:
+                    q = copy.deepcopy(p)
+                    if rng.random() < 0.25:
+                        continue
+                    if rng.random() < 0.3 and q['default'][0] == 'num':
+                        q['default'] = ('num', rng.choice(NUMS))
+                    if rng.random() < 0.2:
+                        q['annot'] = rng.choice([None, 'ir', 'kr', 'ar', 'tr'])
+                    fparams.append(q)
+                funcs[fb] = {'name': fb, 'params': fparams, 'prepend': 0,
+                             'rates': rates if rng.random() < 0.5 else None,
+                             'wraps': [], 'prepend_values': []}
+                if funcs[fb]['rates']:
+                    funcs[fb]['rates'] = [
+                        0.2 if isinstance(e, list) else e
+                        for e in funcs[fb]['rates']]
+            elif mode == 'other':
+                fparams = [new_param(False, False)
+                           for _ in range(rng.choice([0, 1, 2, 3]))]
+                frates = None if rng.random() < 0.6 else [
+                    rng.choice([None, 0.2, 'ir', 'ar'])
+                    for _ in range(rng.randint(0, len(fparams)))]
+                funcs[fb] = {'name': fb, 'params': fparams, 'prepend': 0,
+                             'rates': frates, 'wraps': [],
+                             'prepend_values': []}
+            f['fallback'] = fb
+            parent[fb] = chain[catch_up]
+        host['wraps'].insert(rng.randint(0, len(host['wraps'])), fname)
+        # most of the time something is wrapped after the handled failure
+        if rng.random() < 0.5:
+            c = f'g{len(funcs)}'
+            cp = [new_param(False, False)
+                  for _ in range(rng.choice([1, 2, 2, 3]))]
+            funcs[c] = {'name': c, 'params': cp, 'prepend': 0, 'rates': None,
+                        'wraps': [], 'prepend_values': []}
+            funcs[chain[catch_up]]['wraps'].append(c)
+            parent[c] = chain[catch_up]
+
+
+def without_body_failures(prog):
+    """the same program with bodies that do not fail (the fallback is wrapped
+    after the helper)."""
+    import copy
+    q = copy.deepcopy(prog)
+    for f in list(q['funcs'].values()):
+        if f.get('body_fails'):
+            del f['body_fails']
+            fb = f.pop('fallback', None)
+            if fb:
+                host = next(g for g in q['funcs'].values()
+                            if f['name'] in g['wraps'])
+                host['wraps'].insert(host['wraps'].index(f['name']) + 1, fb)
+    q['special'] = None
+    return q
+
+
 def add_odd_parameter(rng, funcs, special):
     """'empty': one control parameter gets the empty tuple as default.
     'slag': 1-2 scalar (non tuple) control parameters get a LIST of lag
@@ -431,11 +591,14 @@ def describe(prog):
     d = {'source': source(prog), 'definition_name': prog['name']}
     for f in prog['funcs'].values():
         if f['rates'] is not None or f['prepend'] or f['wraps'] \
-                or f.get('fails') or 'alias_of' in f:
+                or f.get('fails') or 'alias_of' in f or f.get('body_fails'):
             d[f['name']] = {'rates': f['rates'], 'prepend': f['prepend_values'],
                             'wraps': f['wraps']}
             if f.get('fails'):
                 d[f['name']]['rejected_by_wrap_then_fallback'] = f['fallback']
+            if f.get('body_fails'):
+                d[f['name']]['body_raises'] = f['body_fails']
+                d[f['name']]['then_fallback'] = f['fallback']
             if 'alias_of' in f:
                 d[f['name']]['same_function_as'] = f['alias_of']
     if prog['specs']:
